@@ -13,6 +13,7 @@ Poly1305 secretbox + SipHash-DRBG length masks).  Named sessions, one per direct
   nets <S> <hex> <sizes>                         → ok            (queue several: hex cut into chunks; sizes = comma list of
                                                     `n` or `nxk` (k chunks of n bytes); must add up to the length)
   fail <S> <cls>                                 → ok            (queue one result `0, err`; cls = eof | timeout | other)
+  failc <S> <chunkhex> <cls>                     → ok            (queue one result `n, err`: bytes TOGETHER with the error)
   read <S> <n>                                   → data <hex> | blocked | err <class> <hex>
   drain <S> <n>                                  → blocked <hex> [inv] | err <class> <hex> [inv]
         (Read(n) repeated until it blocks or reports an error; hex = everything delivered; `inv` =
@@ -123,6 +124,10 @@ def step (st : St) : List String → St × String
     match find st name with
     | some s => (put st { s with evs := s.evs ++ [.fail [] cls], fresh := false }, "ok")
     | none => (st, "bad-op")
+  | ["failc", name, hex, cls] =>
+    match find st name, unhex? hex with
+    | some s, some b => (put st { s with evs := s.evs ++ [.fail b cls], fresh := false }, "ok")
+    | _, _ => (st, "bad-op")
   | ["read", name, n] =>
     match find st name, n.toNat? with
     | some s, some n =>
